@@ -242,6 +242,92 @@ def poller_during_stop(ctx: Ctx, kind: str) -> None:
         defer.uninstall()
 
 
+def stale_entry_then_live(ctx: Ctx, kind: str) -> None:
+    """the runner's thread table holds, first, the finished thread of an invocation that was retried and has meanwhile been
+    claimed by ANOTHER runner (the loop has not pruned it yet) and, second, a live RUNNING one: the stop must get past the
+    first (it is not this runner's any more) and still release the second"""
+    from pynenc.runner.thread_runner import ThreadInfo
+
+    app = make_app(kind, ctx.tmp, app_id=f"c11stale{kind}", runner_cls="ThreadRunner")
+    task = app.task(T.c11_slow, max_retries=2)
+    runner = app.runner
+    runner._on_start()
+    ctxA, ctxB = runner.runner_context, rctx("c11-runner-B")
+    o = app.orchestrator
+    for other in ("pending", "running"):
+        app.purge()
+        x = task("retry", 0.0)
+        invx = list(o.get_invocations_to_run(1, ctxA))[0]
+        tx = threading.Thread(target=lambda: invx.run(ctxA), daemon=True)
+        tx.start()
+        tx.join(10)                                  # X: RETRY, re-queued; its thread is dead but still in A's table
+        gotb = list(o.get_invocations_to_run(1, ctxB))           # runner B claims the retry
+        if other == "running" and gotb:
+            o.set_invocation_status(x.invocation_id, trs_status("running"), ctxB)
+        y = task("ok", 0.6)
+        invy = list(o.get_invocations_to_run(1, ctxA))[0]
+        ty = threading.Thread(target=lambda: invy.run(ctxA), daemon=True)
+        ty.start()
+        t0 = _time.time()
+        while _time.time() - t0 < 5 and o.get_invocation_status(y.invocation_id).value != "running":
+            _time.sleep(0.001)
+        runner.threads = {x.invocation_id: ThreadInfo(tx, invx), y.invocation_id: ThreadInfo(ty, invy)}
+        err = None
+        try:
+            runner._on_stop()
+        except BaseException as e:  # noqa: BLE001
+            err = f"{type(e).__name__}: {e}"
+        ty.join(5)
+        flush(app)
+        q = queue_of(app)
+        rx, ry = o.get_invocation_status_record(x.invocation_id), o.get_invocation_status_record(y.invocation_id)
+        ctx.count()
+        ctx.distinct((kind, "stale-entry", other, ry.status.value))
+        rep = {"kind": "stale-entry-then-live", "backend": kind, "other_runner_has_it": other, "x": [rx.status.value, rx.runner_id], "y": [ry.status.value, ry.runner_id]}
+        sty = ry.status.value
+        ok_y = sty in ("success", "failed", "concurrency_controlled_final") or (sty in ("registered", "rerouted", "retry") and ry.runner_id is None and y.invocation_id in q)
+        if err is not None or not ok_y:
+            ctx.report(f"stop-leaves[{kind}]:{sty}:after-stale-entry",
+                       f"[{kind}] runner A stops with [a finished thread of an invocation now {rx.status.value} under runner B, a live RUNNING invocation] in its table: _on_stop "
+                       f"{'raised ' + err if err else 'returned'}; the live invocation is {sty}, owner {ry.runner_id}, queued {y.invocation_id in q}", rep)
+        if rx.runner_id != ctxB.runner_id:
+            ctx.report(f"stop-touches-foreign[{kind}]", f"[{kind}] the stop of runner A changed an invocation held by runner B: now {rx.status.value}, owner {rx.runner_id}", rep)
+
+
+def trs_status(name: str):  # type: ignore[no-untyped-def]
+    from pynenc.invocation.status import InvocationStatus
+
+    return InvocationStatus(name)
+
+
+def running_child_on_same_runner(ctx: Ctx, kind: str) -> None:
+    """a parent waiting on a sub-task that is RUNNING on the same runner (two slots) when the stop request arrives: the stop
+    completes (the child ends, the parent's wait ends) - unlike the listed finding, where the awaited child is run by nobody"""
+    app = make_app(kind, ctx.tmp, app_id=f"c11pc{kind}", runner_cls="ThreadRunner", runner_loop_sleep_time_sec=0.002,
+                   invocation_wait_results_sleep_time_sec=0.002, min_parallel_slots=2, max_threads=2)
+    parent = app.task(T.c11_parent)
+    app.task(T.c11_slow)
+    inv = parent()
+    runner = app.runner
+    th = threading.Thread(target=runner.run, daemon=True)
+    th.start()
+    o = app.orchestrator
+    t0 = _time.time()
+    child_running = False
+    while _time.time() - t0 < 8 and not child_running:
+        ids = [i for i in o.get_invocation_ids_paginated(limit=10) if i != inv.invocation_id]
+        child_running = inv.status.value == "running" and any(o.get_invocation_status(i).value == "running" for i in ids)
+        _time.sleep(0.002)
+    runner.stop_runner_loop()
+    th.join(6)
+    ctx.count()
+    ctx.distinct((kind, "parent-child-both-running", child_running))
+    if child_running and th.is_alive():
+        ctx.report(f"stop-hangs[{kind}]:parent-and-running-child", f"[{kind}] run() does not return 6 s after the stop request although the awaited sub-task was RUNNING on the same runner "
+                                                                  f"(0.4 s body): parent {inv.status.value}", {"kind": "parent-child-both-running", "backend": kind})
+        T.C11_RELEASE.set()
+
+
 def realtime(ctx: Ctx, kind: str) -> None:
     """the whole runner in real time: workloads of independent / retrying tasks, stop requested at random moments"""
     from pynenc.invocation.status import InvocationStatus as S
@@ -320,6 +406,8 @@ def run(ctx: Ctx) -> None:
         for kind in ("mem", "sqlite"):
             scheduled(ctx, kind, drv)
             poller_during_stop(ctx, kind)
+            stale_entry_then_live(ctx, kind)
+            running_child_on_same_runner(ctx, kind)
             realtime(ctx, kind)
         waiting_parent(ctx, "mem")
     finally:
